@@ -628,21 +628,38 @@ func queryModel(script string, want map[string]bool) (map[string]string, string)
 		ts = append(ts, t)
 	}
 	sort.Strings(ts)
-	sc := script
+	// prefer a small counterexample: first ask for a model in which every
+	// input length / capacity / offset is at most 2048 (replayable literals),
+	// then for any model
+	small := ""
 	for _, t := range ts {
-		sc += fmt.Sprintf("(get-value (%s))\n", t)
-	}
-	for _, bin := range []string{"z3-new", "z3"} {
-		out := runSolverRaw(bin, sc, 30*time.Second)
-		lines := strings.Split(strings.TrimSpace(out), "\n")
-		if len(lines) == 0 || strings.TrimSpace(lines[0]) != "sat" {
-			continue
+		if smallTermRe.MatchString(t) {
+			small += fmt.Sprintf("(assert (<= %s 2048))\n", t)
 		}
-		m := parseValues(strings.Join(lines[1:], "\n"), ts)
-		return m, "sat (" + bin + ")"
+	}
+	variants := []string{script}
+	if idx := strings.LastIndex(script, "(check-sat)"); idx >= 0 && small != "" {
+		variants = []string{script[:idx] + small + script[idx:], script}
+	}
+	for _, base := range variants {
+		sc := base
+		for _, t := range ts {
+			sc += fmt.Sprintf("(get-value (%s))\n", t)
+		}
+		for _, bin := range []string{"z3-new", "z3"} {
+			out := runSolverRaw(bin, sc, 30*time.Second)
+			lines := strings.Split(strings.TrimSpace(out), "\n")
+			if len(lines) == 0 || strings.TrimSpace(lines[0]) != "sat" {
+				continue
+			}
+			m := parseValues(strings.Join(lines[1:], "\n"), ts)
+			return m, "sat (" + bin + ")"
+		}
 	}
 	return nil, "no sat answer from the standalone solvers"
 }
+
+var smallTermRe = regexp.MustCompile(`^[A-Za-z_][A-Za-z0-9_.]*_(len|cap|off)![0-9]+$`)
 
 // queryModelPinned re-runs with the scalar part of the model pinned and asks
 // for the byte contents.
